@@ -48,10 +48,13 @@ def holds (fe : FsEnv) (path : Bytes) (rangeHdr : Bytes) (complete : Bool) (obs 
          cl == some (natDigits (b - a + 1)) &&
          cr == [BYTES_SP ++ natDigits a ++ [45] ++ natDigits b ++ [47] ++ natDigits size] &&
          m.body == (file.drop a).take (b - a + 1))
-  | .dir _ _ =>
+  | .dir loc _ =>
     (match Http.parse (Obs.wire obs) with
      | none => false
-     | some m => one (Http.valuesOf Sock.CONTENT_LENGTH m.headers) == some (natDigits m.body.length))
+     | some m =>
+       one (Http.valuesOf Sock.CONTENT_LENGTH m.headers) == some (natDigits m.body.length) &&
+       -- the listing names every non-hidden entry the directory has now
+       C07.listsAll fe loc m.body)
   | .notFound => true
 
 /-! ## Theorems -/
@@ -330,6 +333,7 @@ theorem holds_run_dir (env : Env) (fe : FsEnv) (req head : Bytes) (snap : Snap) 
     (hexp : C01.expect env head = some snap)
     (hcl : HeaderMap.contains Sock.CONTENT_LENGTH snap.headers = false)
     (hplan : plan fe (snap.path.drop 1) snap.headers = .dir loc d)
+    (hlist : C07.listsAll fe loc (fe.listing loc d) = true)
     (htail : tail.all C03L.allowedEv = true) :
     holds fe (snap.path.drop 1) (HeaderMap.value RANGE snap.headers) complete
       (FsHandler.run env fe (.new :: .feed req :: tail)).sock.log = true := by
@@ -347,7 +351,7 @@ theorem holds_run_dir (env : Env) (fe : FsEnv) (req head : Bytes) (snap : Snap) 
     have hparse' := parse_answered 200 (lit ['O','K']) (dirHdrs (fe.listing loc d)) (fe.listing loc d)
       (by omega) (by decide) (entryOk_dirHdrs _)
     simp only [Bool.not_true, Bool.false_eq_true, if_false, hplan', hwire, hparse', valuesOf_CL_dirHdrs]
-    simp [one]
+    simp [one, hlist]
 
 /-- an unserved path: the predicate asks nothing of the response -/
 theorem holds_notFound (fe : FsEnv) (path rangeHdr : Bytes) (complete : Bool) (obs : List Obs)
@@ -369,6 +373,8 @@ theorem holds_run_any (env : Env) (fe : FsEnv) (req head : Bytes) (snap : Snap) 
     (hcl : HeaderMap.contains Sock.CONTENT_LENGTH snap.headers = false)
     (hfile : ∀ loc r, plan fe (snap.path.drop 1) snap.headers = .file loc r →
       (fe.content loc).length ≤ 65536 ∧ containsByte CR (fe.mime loc) = false)
+    (hdir : ∀ loc d, plan fe (snap.path.drop 1) snap.headers = .dir loc d →
+      C07.listsAll fe loc (fe.listing loc d) = true)
     (htail : tail.all C03L.allowedEv = true) :
     holds fe (snap.path.drop 1) (HeaderMap.value RANGE snap.headers) complete
       (FsHandler.run env fe (.new :: .feed req :: .turn :: tail)).sock.log = true := by
@@ -377,7 +383,7 @@ theorem holds_run_any (env : Env) (fe : FsEnv) (req head : Bytes) (snap : Snap) 
     apply holds_notFound
     rw [plan_congr fe _ (value_RANGE_single _)]; exact hplan
   | dir loc d =>
-    exact holds_run_dir env fe req head snap loc d (.turn :: tail) complete hreq hexp hcl hplan
+    exact holds_run_dir env fe req head snap loc d (.turn :: tail) complete hreq hexp hcl hplan (hdir loc d hplan)
       (by rw [List.all_cons, htail]; rfl)
   | file loc r =>
     obtain ⟨h1, h2⟩ := hfile loc r hplan
